@@ -28,6 +28,8 @@ import (
 //	                               before EnableCaching, 1 after it, 2 CachingWithNum; form>=3: the cache options come first
 //	buildq <name> <args> <style> <expect>   style: 0 rux.M, 1 key/value pairs, 2 a new BuildRequestURL builder, 3 the ONE builder
 //	                               object of this router case, reused by every style-3 call (whatever the route)
+//	gvar <name> <regex>            rux.SetGlobalVar(name, regex) is in force during the registrations that follow in this case
+//	                               (withGlobalVars: the package-level map is restored before each op returns)
 type routeEngine struct{ name string }
 
 func init() {
@@ -62,7 +64,7 @@ func (e routeEngine) Corpus() []Case {
 	sv := func(m, path string) string { return "serve " + hx(m) + " " + hx(path) }
 	switch e.name {
 	case "route":
-		return []Case{
+		return append([]Case{
 			// F1: two irregular routes under one method
 			{Ops: []string{"new 0 0 -", regOp(1, nil, "/{a}", false), regOp(2, nil, "/{a}/{b}", false), q(g, "/x"), q(g, "/x/y")}},
 			// F2: '.' in the literal prefix / first segment
@@ -91,9 +93,9 @@ func (e routeEngine) Corpus() []Case {
 				q(g, "/u-12.html"), q(g, "/u-.html"), q(g, "/n/x/12/detail"), q(g, "/o/1"), q(g, "/o/1/2"), q(g, "/o/1/2/3"), q(g, "/g/12/a/b/c"), q(g, "/g/012/a"), q(g, "/g/1/")}},
 			// F3: white-space only paths; request method strings of all kinds
 			{Ops: []string{"new 4 0 -", regOp(1, nil, "/", false), q(g, "  "), q(g, ""), q("", "/"), q("get", "/"), q("GE", "/"), sv(" ", "\t")}},
-		}
+			}, raCorpus("route")...)
 	case "rcache":
-		return []Case{
+		return append([]Case{
 			// F7: first-segment routes must be cached under method+path
 			{Ops: []string{"new 8 10 -", regOp(1, nil, "/users/{id}", false), q(g, "/users/1"), "ckeys", q(g, "/users/1"), "ckeys", q(g, "/users/2"), "ckeys"}},
 			// evictions with capacity 1 and 2, repeated requests for evicted URLs
@@ -117,7 +119,7 @@ func (e routeEngine) Corpus() []Case {
 			{Ops: []string{"new 0 0 -", "wopt 8 - 0", "wopt 1 1 3", regOp(1, nil, "/blog/{id}", false), q(g, "/blog/7"), q(g, "/blog/8"), "ckeys", q(g, "/blog/8/"), sv(g, "/blog/7"), "ckeys"}},
 			// capacity first and the caching switch later; the capacity raised by a later step
 			{Ops: []string{"new 4 0 -", "wopt 0 1 0", q(g, "/x"), "wopt 8 - 0", "ckeys", "wopt 10 3 5", regOp(1, nil, "/{a}", false), regOp(2, []string{p}, "/*", false), q(g, "/x"), q(g, "/y"), q(g, "/z"), q(g, "/w"), q(p, "/x"), "ckeys"}},
-		}
+			}, raCorpus("rcache")...)
 	case "url":
 		kv := func(pairs ...string) string {
 			if len(pairs) == 0 {
@@ -376,6 +378,9 @@ func (e routeEngine) Gen(r *Rand, tier string) Case {
 	if e.name == "url" {
 		return e.genURL(r, tier)
 	}
+	if c, ok := e.raGen(r, tier); ok { // streams overlap / gvar / optonly (about 6% of the cases each)
+		return c
+	}
 	mask := r.Intn(128) &^ 8
 	cap := 0
 	icpt := ""
@@ -558,6 +563,8 @@ type routeImpl struct {
 	rbIcpt string
 	// the shared BuildRequestURL object of buildq style 3 (created by the first such call after 'new')
 	rbShared *rux.BuildRequestURL
+	raGvars  [][2]string // `gvar` ops of the case so far: in force (withGlobalVars) during every registration that follows
+	raNil    string      // nil-ness of the params map the last lookup handed out / the last handler saw ("" = none)
 }
 
 func fmtParams(ps rux.Params) string {
@@ -645,6 +652,7 @@ func newRouter(mask, cap int, icpt string, caching bool) *rux.Router {
 func (im *routeImpl) quick(r *rux.Router, m, p string) string {
 	route, ps, alm := r.QuickMatch(m, p)
 	if route != nil {
+		im.raNil = raNilness(ps)
 		for id, p := range im.byID {
 			if p == route {
 				return fmt.Sprintf("route %d %s", id, fmtParams(ps))
@@ -695,6 +703,7 @@ func (e routeEngine) Run(ops []string) (ans []string, oracle []string) {
 				}
 				im.accepted = 0
 				im.byID = map[int]*rux.Route{}
+				im.raGvars = nil
 				return "ok"
 			})
 		case "reg":
@@ -708,7 +717,7 @@ func (e routeEngine) Run(ops []string) (ans []string, oracle []string) {
 			path := mustUnhx(f[3])
 			var h rux.HandlerFunc
 			if f[4] != "1" {
-				h = routeHandler(id, f[4] == "2" || f[4] == "4")
+				h = raObserveNil(im, routeHandler(id, f[4] == "2" || f[4] == "4"))
 			}
 			withMw := f[4] == "3" || f[4] == "4"
 			mw := func(c *rux.Context) {
@@ -720,7 +729,7 @@ func (e routeEngine) Run(ops []string) (ans []string, oracle []string) {
 				if withMw {
 					rt.Use(mw)
 				}
-				im.r.AddRoute(rt)
+				withGlobalVars(im.raGvars, func() { im.r.AddRoute(rt) })
 				im.accepted++
 				start, _, regex, names := rt.VerifRouteInfo()
 				if regex == "" {
@@ -754,7 +763,7 @@ func (e routeEngine) Run(ops []string) (ans []string, oracle []string) {
 					if withMw {
 						trt.Use(mw)
 					}
-					im.twin.AddRoute(trt)
+					withGlobalVars(im.raGvars, func() { im.twin.AddRoute(trt) })
 					return ""
 				})
 			}
@@ -774,14 +783,20 @@ func (e routeEngine) Run(ops []string) (ans []string, oracle []string) {
 			if f[0] == "serve" {
 				fn = im.serve
 			}
+			im.raNil = ""
 			a = guarded(func() string { return fn(im.r, m, p) })
+			nilMain := im.raNil
 			if strings.HasPrefix(a, "panic") {
 				oracle = append(oracle, fmt.Sprintf("C13 lookup panicked (%s) on an accepted table: %s", a, op))
 			}
 			if im.twin != nil {
+				im.raNil = ""
 				t := guarded(func() string { return fn(im.twin, m, p) })
 				if t != a {
 					oracle = append(oracle, fmt.Sprintf("C07 caching router answered %q, the same router without cache %q, for %s", a, t, op))
+				} else if im.raNil != nilMain {
+					// what a handler can see without writing: `c.Params == nil`, json.Marshal(c.Params) = null / {}
+					oracle = append(oracle, fmt.Sprintf("C07 caching router handed out a %s params map, the same router without cache a %s one (answer %q), for %s", nilMain, im.raNil, a, op))
 				}
 			}
 		case "regn":
@@ -795,16 +810,18 @@ func (e routeEngine) Run(ops []string) (ans []string, oracle []string) {
 			}
 			a = guarded(func() string {
 				var rt *rux.Route
-				switch api {
-				case 0:
-					rt = im.r.AddNamed(name, path, routeHandler(id, false), methods...)
-				case 1:
-					rt = rux.NewNamedRoute(name, path, routeHandler(id, false), methods...)
-					im.r.AddRoute(rt)
-				default:
-					rt = im.r.Add(path, routeHandler(id, false), methods...)
-					rt.NamedTo(name, im.r)
-				}
+				withGlobalVars(im.raGvars, func() {
+					switch api {
+					case 0:
+						rt = im.r.AddNamed(name, path, routeHandler(id, false), methods...)
+					case 1:
+						rt = rux.NewNamedRoute(name, path, routeHandler(id, false), methods...)
+						im.r.AddRoute(rt)
+					default:
+						rt = im.r.Add(path, routeHandler(id, false), methods...)
+						rt.NamedTo(name, im.r)
+					}
+				})
 				im.byID[id] = rt
 				return "ok " + hx(rt.Path())
 			})
@@ -943,6 +960,13 @@ func (e routeEngine) Run(ops []string) (ans []string, oracle []string) {
 					oracle = append(oracle, fmt.Sprintf("C15 round trip%s: BuildURL(%q, %v=%v) gave path %q, which is routed to %s instead of route %d with these values", shape, name, ks, vs, built, im.quick(im.r, "GET", built), expect))
 				}
 			}
+		case "gvar":
+			if len(f) != 3 {
+				a = "bad-op"
+				break
+			}
+			im.raGvars = append(im.raGvars, [2]string{mustUnhx(f[1]), mustUnhx(f[2])})
+			a = "ok"
 		case "ckeys":
 			c := im.r.VerifCachedRoutes()
 			if c == nil {
